@@ -80,17 +80,3 @@ Definition cex_S : regex := Not (Star any_byte).
 
 Lemma step_partials_ok_original_false :
   ~ (forall S seg ps b,
-       partials_ok S seg ps -> partials_ok S (seg ++ [b]) (step_partials S ps b)).
-Proof.
-  intros H.
-  assert (H0 : partials_ok cex_S [0] []).
-  { intros r n. split; [intros []|].
-    intros (Hle & Hpos & Hr & _ & Hne). cbn [length] in Hle.
-    assert (n = 1%nat) as -> by lia. cbn in Hr. subst r.
-    vm_compute in Hne. discriminate. }
-  specialize (H cex_S [0] [] 256 H0).
-  destruct (H (Not Empty) 2%nat) as [_ Hback].
-  assert (Hin : In (Not Empty, 2%nat) (step_partials cex_S [] 256)).
-  { apply Hback. vm_compute. repeat split; constructor. constructor. }
-  vm_compute in Hin. destruct Hin as [Hin|[]]. discriminate.
-Qed.
